@@ -1214,6 +1214,48 @@ func ruleC14Memo(c *Checker) {
 		}
 		c.check(okP, R, name, m+" result recorded", spos, "every successful path records the result in Builder."+mapName+" under the same key", "a successful "+m+" is not recorded on some path: the work is repeated (for FindDependencies a dependency cycle then never terminates)")
 		_ = missE
+		// (iii-b) and only there: an entry made where the call failed, or before it was made, turns a
+		// later reference into "already done" for work that never completed
+		early := token.NoPos
+		nUpd := 0
+		for _, g := range p.Funcs {
+			if !inBundlePkg(p, g) {
+				continue
+			}
+			eachInstr(g, func(in ssa.Instruction) {
+				mu, ok := in.(*ssa.MapUpdate)
+				if !ok || builderMapOf(mu.Map) != mapName {
+					return
+				}
+				nUpd++
+				switch {
+				case g != fn:
+					early = mu.Pos()
+				case len(okE) > 0:
+					if !guarded(mu.Block(), okE) {
+						early = mu.Pos()
+					}
+				default:
+					after := false
+					if mu.Block() == call.Block() {
+						for _, x := range call.Block().Instrs {
+							if x == ssa.Instruction(call) {
+								after = true
+							}
+							if x == in {
+								break
+							}
+						}
+					} else {
+						after = blockDominates(call.Block(), mu.Block())
+					}
+					if !after {
+						early = mu.Pos()
+					}
+				}
+			})
+		}
+		c.check(early == token.NoPos, R, name, m+" recorded only once it succeeded", pos, fmt.Sprintf("%d update(s) of Builder.%s, all past the call's success edge", nUpd, mapName), "Builder."+mapName+" gets an entry at "+p.Pos(early)+" that does not lie past the success edge of "+m+": a later reference finds it and reports (or uses) a result that was never obtained")
 		// (iv) lock
 		c.check(li.at[call].Held && li.at[ssa.Instruction(lk)].Held, R, name, m+" under mu", pos, "lookup and call are made with mu held", "the memo lookup or the external call is made without holding mu (two goroutines can both miss and both fetch)")
 	}
